@@ -115,7 +115,9 @@ def run_shard(spec):
     #         could not be refused)
     if part == 0:
         for src in ['.ascii "a\\x 41"\n', '.ascii "\\x;∀∀\n41"\n', ".word '\\x 41\n", '.ascii "\\x\t41"\n', '.asciz "\\x\n4 1"\n', '.ascii "\\x ; c\n41" "é"\n',
-                    '.word "\\x 41\\x 42\n']:
+                    '.word "\\x 41\\x 42\n',
+                    # ... and they are the ASCII hex digits: decimal digits of other scripts are characters outside the table
+                    '.ascii "\\x٤١"\n', '.ascii "\\x４１"\n', '.ascii "a\\x4１b"\n', ".word '\\x६५\n"]:
             case = {"kind": "xgap", "src": src}
             res["violations"].extend(run_case(case, cnt))
             res["evaluations"] += 1
@@ -129,7 +131,8 @@ def run_shard(spec):
             chars = [rnd.choice(pool) for _ in range(rnd.randrange(1, 12))]
         else:
             chars = [rnd.choice(pool) for _ in range(rnd.randrange(1, 12))]
-            bad = chr(rnd.choice([0x20AC, rnd.randrange(0x100, 0x2000), rnd.randrange(0xA0, 0xC0), rnd.randrange(0x3000, 0xD000), 0x7F, 0x7F, 0xA0, 0xFF]))
+            bad = chr(rnd.choice([0x20AC, rnd.randrange(0x100, 0x2000), rnd.randrange(0xA0, 0xC0), rnd.randrange(0x3000, 0xD000), 0x7F, 0x7F, 0xA0, 0xFF,
+                                  0xFEFF, 0xFEFF, 0x200B, 0xFFFE, 0x2060]))
             while bad in ref_chars:
                 bad = chr(rnd.randrange(0x100, 0x2000))
             if rnd.random() < 0.3:
@@ -146,7 +149,7 @@ def run_shard(spec):
                 chars.append(rnd.choice(["\t", "\x0b", "\x0c", "\x1c", "\x1f", "\x85", " ", "я", "Z"]))
             elif rnd.random() < 0.6:
                 chars = [c for c in chars if c in ref_chars] + [rnd.choice(["\u2003", "\u3000", "\xa0", "\u2009", "\u205f"])]
-        case = {"kind": "asm", "mode": mode, "chars": "".join(chars), "before": rnd.choice([None, None, "utf-8", "cp866", "koi8-r", "latin-1", "utf-16"])}
+        case = {"kind": "asm", "mode": mode, "chars": "".join(chars), "included": rnd.random() < 0.3, "before": rnd.choice([None, None, "utf-8", "cp866", "koi8-r", "latin-1", "utf-16"])}
         vs = run_case(case, cnt)
         res["violations"].extend(vs)
         cnt["asm_programs"] += 1
@@ -270,12 +273,27 @@ def run_case(case, cnt=None):
                 chars = chars + "A"
             src = "".join(f'.word "{chars[i]}{chars[i + 1]}\n' for i in range(0, len(chars), 2))
             expect = bytes(ref_chars.get(c, 0) for c in chars)
+        files = [("/c14/main.mac", src)]
+        tmpd = None
+        if case.get("included"):
+            # the same text in an included file: read from disk by the assembler itself
+            import os
+            import tempfile
+            tmpd = tempfile.mkdtemp(prefix="c14-", dir=os.getcwd())
+            with open(os.path.join(tmpd, "inc5.mac"), "w", encoding="utf-8", newline="") as fh:
+                fh.write(src)
+            files = [(os.path.join(tmpd, "main.mac"), '.include "inc5.mac"\n')]
+            if cnt is not None:
+                cnt["asm_included"] = cnt.get("asm_included", 0) + 1
         if case.get("before"):
             # the same text assembled for another output charset earlier in this process: whatever that gave, the bk result is the bk table's
-            asm.assemble([("/c14/main.mac", src)], charset=case["before"], wall=30)
+            asm.assemble(files, charset=case["before"], wall=30)
             if cnt is not None:
                 cnt["asm_after_other_charset"] = cnt.get("asm_after_other_charset", 0) + 1
-        o = asm.assemble([("/c14/main.mac", src)], charset="bk", wall=30)
+        o = asm.assemble(files, charset="bk", wall=30)
+        if tmpd:
+            import shutil
+            shutil.rmtree(tmpd, ignore_errors=True)
         if o.cls in ("stall",):
             return out
         if bad:
